@@ -99,7 +99,7 @@ def gen_route(rng, L):
         r['how'] = rng.choice(['add', 'radd', 'mul', 'join', 'and-ones', 'invert-twice', 'other-class', 'pack-bits', 'shift0',
                                'prepend-str-to-empty', 'append-str-to-empty', 'iadd-str-to-empty', 'insert-str-in-empty', 'setslice-str-in-empty',
                                # objects the library made itself, and objects that got their content after they were made
-                               'pack-direct', 'length-only', 'from-BitArray', 'from-BitStream', 'copy-of-mutable', 'prop-bin-assigned', 'prop-uintN-assigned',
+                               'pack-direct', 'length-only', 'from-BitArray', 'from-BitStream', 'copy-of-mutable', 'prop-bin-assigned', 'prop-uintN-assigned', 'prop-hex-assigned', 'prop-oct-assigned', 'prop-bytes-assigned', 'prop-intN-assigned',
                                'shift-all-then-or', 'mul0-then-iadd', 'stream-after-array-of-same-text', 'cleared-then-iadd'])
     return r
 
@@ -343,6 +343,27 @@ def build(cls, bits, r, files):
     if how == 'copy-of-mutable':
         src = mk(cls, bits)
         return (src.copy() if L % 2 else copy.copy(src)), bits
+    if how in ('prop-hex-assigned', 'prop-oct-assigned', 'prop-bytes-assigned', 'prop-intN-assigned'):
+        if cls.__name__ not in util.MUTABLE or not L:
+            raise Skip
+        t = cls('0b1')
+        if how == 'prop-hex-assigned':
+            if L % 4:
+                raise Skip
+            t.hex = format(int(bits, 2), f'0{L // 4}x')
+        elif how == 'prop-oct-assigned':
+            if L % 3:
+                raise Skip
+            t.oct = format(int(bits, 2), f'0{L // 3}o')
+        elif how == 'prop-bytes-assigned':
+            if L % 8:
+                raise Skip
+            t.bytes = to_bytes(bits)
+        else:
+            if L > 64:
+                raise Skip
+            setattr(t, f'int{L}', int(bits, 2) - ((1 << L) if bits[0] == '1' else 0))
+        return t, bits
     if how in ('prop-bin-assigned', 'prop-uintN-assigned', 'shift-all-then-or', 'mul0-then-iadd', 'cleared-then-iadd', 'stream-after-array-of-same-text'):
         if cls.__name__ not in util.MUTABLE:
             raise Skip
@@ -422,11 +443,11 @@ def battery(s, b):
         'startswith': lambda: (s.startswith('0b' + b[:3]), s.endswith('0b' + b[-3:])) if L >= 3 else None,
         'cut': lambda: [B(x) for x in s.cut(7)], 'split': lambda: [B(x) for x in s.split('0b11')],
         'add': lambda: (B(s + '0b1'), B('0b1' + s), B(s + s)), 'mul': lambda: B(s * 2), 'invert': lambda: call_name(lambda: B(~s)),
-        'shifts': lambda: call_name(lambda: (B(s << 3), B(s >> 3))), 'bitwise': lambda: call_name(lambda: (B(s & m), B(s | m), B(s ^ m), B(m & s))),
+        'shifts': lambda: call_name(lambda: (B(s << 3), B(s >> 3))), 'shifts0': lambda: call_name(lambda: (B(s << 0), B(s >> 0), B(s << L), B(s >> L), B(s * 1), B(s[:] + ''))), 'bitwise': lambda: call_name(lambda: (B(s & m), B(s | m), B(s ^ m), B(m & s))),
         'join': lambda: B(s.join(['0b1', '0b0', '0b1'])), 'unpack': lambda: call_name(lambda: [x if not isinstance(x, Bits) else B(x) for x in s.unpack('u3, bits')]),
         'tobitarray': lambda: s.tobitarray().to01(), 'uint': lambda: call_name(lambda: s.uint), 'int': lambda: call_name(lambda: s.int),
         'hex': lambda: call_name(lambda: s.hex), 'oct': lambda: call_name(lambda: s.oct), 'bytes': lambda: call_name(lambda: s.bytes),
-        'str': lambda: str(s), 'to-BitArray': lambda: B(BitArray(s)), 'to-ConstBitStream': lambda: B(ConstBitStream(s)), 'to-Bits': lambda: B(Bits(s)),
+        'str': lambda: str(s), 'repr-evaluates-to': lambda: _repr_roundtrip(s), 'to-BitArray': lambda: B(BitArray(s)), 'to-ConstBitStream': lambda: B(ConstBitStream(s)), 'to-Bits': lambda: B(Bits(s)),
         'copy': lambda: B(copy.copy(s)), 'copy()': lambda: B(s.copy()), 'uintle': lambda: call_name(lambda: s.uintle), 'float': lambda: call_name(lambda: repr(s.float)),
         'tobitarray-use': lambda: tobitarray_use(s), 'tofile': lambda: tofile_bytes(s), 'readlist': lambda: call_name(lambda: ConstBitStream(s).readlist('bool, bits')[0]) if L else None,
     }
@@ -453,6 +474,14 @@ def tobitarray_use(s):
     ba.append(1)
     ba.invert()
     return ba.to01(), ba2.to01(), ba is ba2, B(s)
+
+
+def _repr_roundtrip(s):
+    """What evaluating repr(s) gives back (content, class) - the text itself may name a file, the value may not differ."""
+    if len(s) > 1000:
+        return None
+    o = eval(repr(s), {'Bits': Bits, 'BitArray': BitArray, 'ConstBitStream': ConstBitStream, 'BitStream': BitStream, '__builtins__': {}})
+    return B(o), type(o).__name__, o == s
 
 
 def tofile_bytes(s):
